@@ -111,10 +111,11 @@ def validate_family(ctx, pid, traces, topology, hdr, family, nontrivial_actions,
     return ok
 
 
-def random_family(ctx, pid, topology, profile, seeds, steps, nontrivial_actions, settings=None, goals=(1, 2, 3), **kw):
+def random_family(ctx, pid, topology, profile, seeds, steps, nontrivial_actions, settings=None, goals=(1, 2, 3),
+                  dual_stack=False, **kw):
     traces, hdr = [], None
     for seed in seeds:
-        tr, w = R.random_run(topology, seed, profile, steps, settings=settings, goals=goals)
+        tr, w = R.random_run(topology, seed, profile, steps, settings=settings, goals=goals, dual_stack=dual_stack)
         check_escapes(ctx, w, tr, "%s/%s" % (topology, profile))
         traces.append(tr)
         hdr = w.header()
